@@ -308,7 +308,9 @@ class Queue:
             w = self.waiters.pop(0)
             _hub._make_ready(w, None)
         self._log('put', item)
-        _hub.yield_point()
+        # ... and so is the return of put(): a thread descheduled right after its put took
+        # effect may stay so while the consumer and everything it triggers runs
+        _hub.yield_point(hold=True)
 
     def put_quiet(self, item):
         """Harness-internal put: no log record, no schedule point (used for wake-ups that belong
